@@ -16,8 +16,19 @@ RULE = ("all 12 variants x cutoffs on / between grid points / beyond the grid / 
 
 
 def generate(rng, tier):
-    reps = 3 if tier == "quick" else 20
-    return [FL.gen_filter_case(rng, tier, R, Q) for _ in range(reps) for R in range(3) for Q in range(4)]
+    reps = 4 if tier == "quick" else 20
+    cases = []
+    for rep in range(reps):
+        for R in range(3):
+            for Q in range(4):
+                c = FL.gen_filter_case(rng, tier, R, Q)
+                if rep < 4:   # every variant sees every present/absent combination of the two input uncertainties, with non-zero values
+                    FL.force_uncertainties(rng, c, dgr=bool(rep & 1) or rep == 0, dy=bool(rep & 2) or rep == 0)
+                if rep == 1:  # a grid point exactly on the cutoff
+                    c["cutoff"] = c["r"][max(1, len(c["r"]) // 2)]
+                    c["desc"]["cutoff"] = "grid"
+                cases.append(c)
+    return cases
 
 
 run_impl = FL.run_filter
@@ -73,6 +84,26 @@ def oracle(pystog, case, res):
             return "data vanishing in g(r) below the cutoff still produce a removed component"
         if (np.abs(o3[3] - yin) > 1e-9 * (1 + np.abs(yin))).any():
             return "data vanishing in g(r) below the cutoff change the reciprocal-space function"
+    # removed component = sine transform (public method) of the real-space signal on the closed interval [0, cutoff] alone
+    keep = [i for i, v in enumerate(case["r"]) if 0.0 <= v <= case["cutoff"]]
+    if keep:
+        tr0 = pystog.Transformer()
+        cv0 = pystog.Converter()
+        kw0 = L.kwargs_of(m)
+        rr = np.array([case["r"][i] for i in keep], float)
+        gg_ = np.array([case["gr"][i] for i in keep], float)
+        dg_ = None if case["dgr"] is None else np.array([case["dgr"][i] for i in keep], float)
+        if R != 0:
+            gg_, dg_ = getattr(cv0, "%s_to_g" % L.GN[R])(rr, gg_, dg_, **kw0)
+        _, f_rm, df_rm = tr0.g_to_F(rr, gg_ + 1, np.array(case["q"], float), dg_, **kw0)
+        if Q != 1:
+            f_rm, df_rm = getattr(cv0, "F_to_%s" % L.RN[Q])(np.array(case["q"], float), f_rm, df_rm, **kw0)
+        mag_rm = 1 + np.abs(o["y_ft"]) + np.abs(np.asarray(f_rm, float))
+        if (np.abs(np.asarray(f_rm, float) - o["y_ft"]) > 1e-9 * mag_rm).any():
+            return "removed component is not the transform of the real-space signal on [0, cutoff] (cutoff %r %s a grid point)" % (
+                case["cutoff"], "is" if case["cutoff"] in case["r"] else "is not")
+        if (np.abs(np.asarray(df_rm, float) - o["dy_ft"]) > 1e-9 * (1e-300 + np.abs(o["dy_ft"]) + np.abs(np.asarray(df_rm, float)))).any():
+            return "uncertainty of the removed component is not that of the transform of the [0, cutoff] signal"
     # returned real-space function = transform of the returned corrected function
     tr = pystog.Transformer()
     kw = L.kwargs_of(m)
